@@ -17,13 +17,13 @@ pub struct C07;
 
 pub const NAMES: [&str; 4] = ["x", "y", "z", "w"];
 
-pub fn gen_case(r: &mut Prng, tag: &str, allow_panicky_bare: bool) -> Case {
+pub fn gen_case(r: &mut Prng, tag: &str, allow_panicky_bare: bool, big: bool) -> Case {
     let mut case = Case::new(tag);
     case.slots.push(base_ctx(r, &NAMES));
     let knobs = Knobs {
         observable: *r.pick(&[20, 35, 50]),
-        max_depth: 2 + r.below(3) as u32,
-        max_nodes: 8 + r.usize(8),
+        max_depth: 2 + r.below(if big { 4 } else { 3 }) as u32,
+        max_nodes: 8 + r.usize(if big { 18 } else { 8 }),
         ctx_call: r.chance(4, 5),
         ctx_bare: allow_panicky_bare && r.chance(3, 5),
         global_fn: r.chance(3, 5),
@@ -32,7 +32,7 @@ pub fn gen_case(r: &mut Prng, tag: &str, allow_panicky_bare: bool) -> Case {
         dumpers: false,
     };
     let depth = knobs.max_depth;
-    let nst = 1 + r.usize(3);
+    let nst = 1 + r.usize(if big { 5 } else { 3 });
     let (stmts, regs) = {
         let mut g = Gen::new(r, &mut case, knobs, 0);
         g.assign_names = NAMES.iter().map(|s| s.to_string()).collect();
@@ -89,9 +89,9 @@ impl Prop for C07 {
         48000 * tier.scale()
     }
 
-    fn run_index(&self, idx: u64, seed: u64, _tier: Tier, rt: &mut Rt) -> Vec<Violation> {
+    fn run_index(&self, idx: u64, seed: u64, tier: Tier, rt: &mut Rt) -> Vec<Violation> {
         let mut r = Prng::derive(seed, "C07.case", idx);
-        let base = Arc::new(gen_case(&mut r, "C07", true));
+        let base = Arc::new(gen_case(&mut r, "C07", true, tier == Tier::Thorough));
         rt.case_seen(base.fingerprint());
         if let Err(why) = preflight(&base, rt) {
             rt.skip(&format!("preflight: {}", why.split_whitespace().take(3).collect::<Vec<_>>().join(" ")));
